@@ -114,6 +114,9 @@ def run_c12(ctx):
         if not isinstance(s_or_exc, Exception):
             systems.append(s_or_exc)
     cases, structs = [], set()
+    # the document save() writes, as a relation to the abstract state (TraceReports!SaveDocOK, clause C12.SaveDoc): what
+    # from_file will read is the system itself - an error that save() and from_file() share is invisible to the round trip
+    validate_reports(ctx, res, [reports.report_case(s, i, "system %d" % i) for i, s in enumerate(systems)])
     for i, s in enumerate(systems):
         s2, exc = None, None
         try:
